@@ -51,10 +51,11 @@ Record config := mkCfg {
   rng_seeds_locked : bool;          (* RNGSeedGenerator methods take the mutex; creation through call_once *)
   spaces_registry_locked : bool;    (* the registry of allocated state spaces is guarded by its mutex in every function that touches it *)
   console_locked : bool;            (* log output is serialised by a mutex *)
-  gnat_query_no_shared_scratch : bool }.  (* the thread-safe GNAT keeps no mutable per-query scratch data in the object *)
+  gnat_query_no_shared_scratch : bool;    (* the thread-safe GNAT keeps no mutable per-query scratch data in the object *)
+  prm_bestcost_before_thread : bool }.    (* PRM::solve resets bestCost_ before it starts the solution checking thread, and constructRoadmap does not overwrite it *)
 Definition config_ok (c : config) : bool :=
   mv_counters_atomic c && mv_increments_rmw c && ptc_flags_atomic c && ptc_eval_terminate_first c && prrt_atomic_steps c && pdef_solutions_locked c && rng_seeds_locked c &&
-  spaces_registry_locked c && console_locked c && gnat_query_no_shared_scratch c.
+  spaces_registry_locked c && console_locked c && gnat_query_no_shared_scratch c && prm_bestcost_before_thread c.
 (* the schedule shape a configuration allows for the motion counters: atomic increments only, or read/write pairs *)
 Definition counter_events_ok (c : config) (sched : list cev) : bool :=
   if mv_counters_atomic c && mv_increments_rmw c then forallb is_ainc sched else true.
@@ -79,3 +80,15 @@ Fixpoint prun (first periodic fn : bool) (s : pst) (l : list pev) : list bool :=
   | e :: t => let '(s1, o) := pstep first periodic fn s e in
               match o with Some b => b :: prun first periodic fn s1 t | None => prun first periodic fn s1 t end
   end.
+
+(* ---- PRM's best cost: the planning thread resets it (BInit: bestCost_ = infinite cost), the solution checking thread lowers it
+   to the cost of every path it finds (BStore c: if c is better than bestCost_ then bestCost_ = c).  Events in the order in
+   which they take effect; after the thread has been joined solve() stores the final value with the solution.  None = infinite.
+   Resetting before the thread is started means that every BStore of the call comes after its BInit. *)
+Inductive bev := BInit | BStore (c : nat).
+Definition bstep (s : option nat) (e : bev) : option nat :=
+  match e with
+  | BInit => None
+  | BStore c => match s with None => Some c | Some b => Some (Nat.min b c) end
+  end.
+Definition brun (s : option nat) (l : list bev) : option nat := fold_left bstep l s.
